@@ -145,7 +145,7 @@ def conf_sx(t):
 
 def run_model(histories, confs, builtin) -> list:
     out = []
-    for line in lean_driver([model_line(h, confs, builtin) for h in histories]):
+    for line in lean_driver([model_line(h, confs, builtin) for h in histories], 'C06'):
         v = parse_sexp(line)
         assert v[0] == 'ok', line
         out.append(v[1])
